@@ -146,8 +146,98 @@ def run_prev(fzf, tmp, sc):
         shutil.rmtree(d, ignore_errors=True)
 
 
+def gen_tail(r):
+    n1 = r.randint(3, 7)
+    n2 = r.randint(2, 6)
+    drop = r.randint(1, min(n1 - 1, n2))            # how many of the first lines --tail trims away (none before the second part arrives)
+    sel = r.sample(range(n1 - 1), r.randint(1, min(3, n1 - 1)))
+    if r.random() < 0.7 and 0 not in sel:
+        sel = [0] + sel[:2]                          # the first line is always among the trimmed ones
+    return dict(kind='tail', n1=n1, n2=n2, tail=n1 + n2 - drop, sel=sel, gap=r.choice([2.5, 3.0]))
+
+
+def run_tail(fzf, tmp, sc):
+    d = tempfile.mkdtemp(prefix='prevt-', dir=tmp)
+    try:
+        log = os.path.join(d, 'log')
+        n1, n2 = sc['n1'], sc['n2']
+        p1 = ''.join('k%d\n' % i for i in range(n1))
+        p2 = ''.join('z%d\n' % i for i in range(n2))
+        cmd = 'echo "S $$ "{1}" p="{+1} >> %s; echo "OUT "{+1}' % log
+        args = ['--preview', cmd, '--multi', '--tail', str(sc['tail']), '--preview-window', 'right,50%']
+
+        def prep(dd):
+            open(os.path.join(dd, 'p1'), 'w').write(p1)
+            open(os.path.join(dd, 'p2'), 'w').write(p2)
+        s = Session(fzf, args, [], tmp, width=100, height=24, input_cmd="(cat '{d}/p1'; sleep %s; cat '{d}/p2'; sleep 0.3)" % sc['gap'], prepare=prep)
+        try:
+            if s.wait_ready() is None:
+                return None, 'fzf did not start'
+            t0, st = time.time(), None
+            while time.time() - t0 < 3.0:
+                st = s.get()
+                if st and st['totalCount'] >= n1:
+                    break
+                time.sleep(0.02)
+            if not st or st['totalCount'] != n1:
+                return None, 'the first part of the input could not be observed on its own'
+            # selections one by one (selection order), then the cursor rests on the last line of the first part
+            for k in sc['sel']:
+                s.post('pos(%d)+select' % (k + 1))
+            s.post('change-query(k%d)' % (n1 - 1))
+            st = s.get()
+            if not st or st['totalCount'] != n1 or len(st.get('selected', [])) != len(sc['sel']):
+                return None, 'the second part of the input arrived before the selection was made'
+            # the second part arrives and --tail trims
+            t0 = time.time()
+            st = None
+            while time.time() - t0 < 6.0:
+                time.sleep(0.1)
+                st = s.get()
+                if st and st['totalCount'] == min(sc['tail'], n1 + n2) and not st.get('reading', False):
+                    break
+            prev, stable = None, 0
+            t0 = time.time()
+            while time.time() - t0 < 5.0 and stable < 5:
+                time.sleep(0.15)
+                st = s.get()
+                key = (json.dumps(st, sort_keys=True), os.path.getsize(log) if os.path.exists(log) else 0)
+                stable = stable + 1 if key == prev else 0
+                prev = key
+            cur = st.get('current')
+            curk = cur['text'] if cur else '-'
+            seln = ','.join(x['text'] for x in st.get('selected', [])) or '-'
+            lastk, lastp = '-', '-'
+            try:
+                rows = [l for l in open(log, errors='replace').read().splitlines() if l.startswith('S ')]
+                if rows:
+                    f = rows[-1].split(' ', 3)
+                    lastk = f[2]
+                    lastp = ','.join(f[3][2:].split()) or '-'
+            except FileNotFoundError:
+                pass
+            want = seln if seln != '-' else curk
+            shown = 0
+            if cur:
+                for _ in range(10):
+                    if any(('OUT ' + ' '.join(want.split(','))) in row for row in s.capture()):
+                        shown = 1
+                        break
+                    time.sleep(0.1)
+        finally:
+            s.post('abort')
+            s.wait_exit(2.0)
+            s.close()
+        lhs = 'preview plus %d %d %d %s' % (n1, n2, sc['tail'], ','.join(str(k) for k in sc['sel']))
+        return lhs + ' => %s %s %s %s %d' % (curk, lastk, lastp, seln, shown), None
+    finally:
+        shutil.rmtree(d, ignore_errors=True)
+
+
 def _work(ctx, sc):
     try:
+        if sc.get('kind') == 'tail':
+            return run_tail(ctx['fzf'], ctx['tmp'], sc)
         return run_prev(ctx['fzf'], ctx['tmp'], sc)
     except Exception as e:
         return None, 'driver error: %r' % (e,)
@@ -157,7 +247,7 @@ def drv_preview(tier, seed, ctx):
     from vcheck import evaluate
     n = 24 if tier == 'quick' else 400
     r = random.Random(seed * 32452843 + 9)
-    scs = [gen_prev(r, tier) for _ in range(n)]
+    scs = [gen_prev(r, tier) for _ in range(n)] + [gen_tail(r) for _ in range(6 if tier == 'quick' else 60)]
     notes = []
     with ThreadPoolExecutor(max_workers=8) as ex:
         outs = list(ex.map(lambda sc: _work(ctx, sc), scs))
@@ -197,7 +287,7 @@ def drv_preview(tier, seed, ctx):
     if flaky:
         notes.append('%d preview session(s) failed once and passed 3 re-runs (schedule-dependent; not reported as a violation)' % flaky)
     if undriven:
-        notes.append('%d of %d preview sessions could not be driven' % (undriven, n))
+        notes.append('%d of %d preview sessions could not be driven' % (undriven, len(scs)))
     return out, notes
 
 
